@@ -99,6 +99,9 @@ type c08Obj struct {
 	// started for, "old" = another VERSION of it (the XRD's referenceable version changed after
 	// the reference was written), "other" = another group and kind. The XR is looked up by name.
 	RefVer string `json:"refVer,omitempty"`
+	// usages: spec.by names the using resource by a resourceSelector that has not been
+	// resolved yet (no resourceRef); its labels select the resource Ref of kind RefKind
+	Sel bool `json:"sel,omitempty"`
 }
 
 type c08Step struct {
@@ -151,6 +154,7 @@ const (
 	c08ClaimCRD = "things.example.org"
 	c08Hold     = "example.com/hold"
 	c08FgFin    = "foregroundDeletion"
+	c08SelLabel = "c08.example.org/name"
 )
 
 var (
@@ -354,7 +358,10 @@ func c08Build(idx int, o c08Obj, all []c08Obj) *unstructured.Unstructured {
 	case "usage":
 		og, bg := c08GVK(c08ResKind(o.OfKind)), c08GVK(c08ResKind(o.RefKind))
 		spec["of"] = map[string]any{"apiVersion": og.GroupVersion().String(), "kind": og.Kind, "resourceRef": map[string]any{"name": o.Of}}
-		if o.Ref != "" {
+		if o.Ref != "" && o.Sel {
+			spec["by"] = map[string]any{"apiVersion": bg.GroupVersion().String(), "kind": bg.Kind,
+				"resourceSelector": map[string]any{"matchLabels": map[string]any{c08SelLabel: o.Ref}}}
+		} else if o.Ref != "" {
 			spec["by"] = map[string]any{"apiVersion": bg.GroupVersion().String(), "kind": bg.Kind, "resourceRef": map[string]any{"name": o.Ref}}
 		}
 		if o.Flag {
@@ -364,6 +371,8 @@ func c08Build(idx int, o c08Obj, all []c08Obj) *unstructured.Unstructured {
 		if o.Inuse {
 			labels["crossplane.io/in-use"] = "true"
 		}
+		// what a resourceSelector of a Usage selects this resource by
+		labels[c08SelLabel] = name
 	}
 	if len(annos) > 0 {
 		md["annotations"] = annos
@@ -395,6 +404,7 @@ type c08View struct {
 	OfKind     string // usages: kind of the used resource
 	Flag       bool
 	SkipDeps   bool // revisions: spec.skipDependencyResolution
+	Sel        bool // usages: spec.by is an unresolved resourceSelector
 	Owners     int  // number of owner references
 	CtrlUID    string
 	Conds      []string
@@ -468,6 +478,12 @@ func c08ViewOf(u *unstructured.Unstructured) c08View {
 	case "usage":
 		v.Of, _, _ = unstructured.NestedString(u.Object, "spec", "of", "resourceRef", "name")
 		v.Ref, _, _ = unstructured.NestedString(u.Object, "spec", "by", "resourceRef", "name")
+		if v.Ref == "" {
+			// not resolved yet: the resource the selector's labels select
+			if n, ok, _ := unstructured.NestedString(u.Object, "spec", "by", "resourceSelector", "matchLabels", c08SelLabel); ok && n != "" {
+				v.Ref, v.Sel = n, true
+			}
+		}
 		v.OfKind = c08RefKind(u, "of")
 		v.RefKind = c08RefKind(u, "by")
 		v.Flag = u.GetLabels()["crossplane.io/composite"] != ""
